@@ -2,76 +2,61 @@ From stdpp Require Import gmap.
 From Coq Require Import NArith Lia.
 From RV Require Import Ingress.IngressModel Rib.RibModel Bmp.BmpModel Pipe.PipeModel E2e.E2eModel.
 
-(* connections accepted = connections lost + routers connected now, after every history *)
-Definition uc_balanced (u : ucount) : Prop :=
-  uc_accepted u = (uc_lost u + N.of_nat (size (uc_live u)))%N.
+(* connections accepted = connections lost + routers connected now, after every history;
+   and only connected routers have state-machine metrics *)
+Definition uc_ok (u : ucount) : Prop :=
+  uc_accepted u = (uc_lost u + N.of_nat (size (uc_live u)))%N /\ uc_known u ⊆ uc_live u.
 
-Lemma uc_step_balanced u o : uc_balanced u -> uc_balanced (uc_step u o).
+Lemma uc_step_ok u o : uc_ok u -> uc_ok (uc_step u o).
 Proof.
-  unfold uc_balanced. intros Hb. destruct o as [k|k m|k| | | | |]; cbn [uc_step]; try exact Hb.
+  unfold uc_ok. intros [Hb Hs]. destruct o as [k|k m|k| | | | |]; cbn [uc_step]; try (split; [exact Hb|exact Hs]).
   - destruct (decide (k ∈ uc_live u)) as [Hin|Hin].
-    + rewrite bool_decide_true by exact Hin. exact Hb.
-    + rewrite bool_decide_false by exact Hin. cbn [uc_accepted uc_lost uc_live].
+    + rewrite bool_decide_true by exact Hin. split; [exact Hb|exact Hs].
+    + rewrite bool_decide_false by exact Hin. cbn [uc_accepted uc_lost uc_live uc_known]. split; [|set_solver].
       rewrite size_union by set_solver. rewrite size_singleton. lia.
-  - destruct m; try exact Hb.
-    destruct (decide (k ∈ uc_live u)) as [Hin|Hin];
-      [rewrite bool_decide_true by exact Hin|rewrite bool_decide_false by exact Hin]; exact Hb.
   - destruct (decide (k ∈ uc_live u)) as [Hin|Hin].
-    + rewrite bool_decide_true by exact Hin. cbn [uc_accepted uc_lost uc_live].
-      assert (Hs : size (uc_live u) = S (size (uc_live u ∖ {[k]}))).
+    + rewrite bool_decide_true by exact Hin. cbn [uc_accepted uc_lost uc_live uc_known]. split; [exact Hb|set_solver].
+    + rewrite bool_decide_false by exact Hin. split; [exact Hb|exact Hs].
+  - destruct (decide (k ∈ uc_live u)) as [Hin|Hin].
+    + rewrite bool_decide_true by exact Hin. cbn [uc_accepted uc_lost uc_live uc_known]. split; [|set_solver].
+      assert (Hsz : size (uc_live u) = S (size (uc_live u ∖ {[k]}))).
       { rewrite (union_difference_L {[k]} (uc_live u)) at 1 by set_solver.
         rewrite size_union by set_solver. rewrite size_singleton. reflexivity. }
       lia.
-    + rewrite bool_decide_false by exact Hin. exact Hb.
+    + rewrite bool_decide_false by exact Hin. split; [exact Hb|exact Hs].
 Qed.
 
-Lemma uc_dropped_balanced u : uc_balanced u -> uc_balanced (uc_dropped u).
-Proof. unfold uc_balanced, uc_dropped. cbn [uc_accepted uc_lost uc_live]. lia. Qed.
-
-Lemma uc_run_balanced l : forall u, uc_balanced u -> uc_balanced (uc_run u l).
+Lemma uc_run_ok l : forall u, uc_ok u -> uc_ok (uc_run u l).
 Proof.
   induction l as [|o l IH]; intros u Hb; [exact Hb|]. cbn [uc_run fold_left].
-  apply IH, uc_step_balanced, Hb.
+  apply IH, uc_step_ok, Hb.
 Qed.
+
+Lemma uc_init_ok : uc_ok uc_init.
+Proof. split; [reflexivity|set_solver]. Qed.
 
 Theorem uc_connected_is_accepted_minus_lost l :
   uc_connected_spec (uc_run uc_init l) = (uc_accepted (uc_run uc_init l) - uc_lost (uc_run uc_init l))%N.
 Proof.
-  pose proof (uc_run_balanced l uc_init) as H. unfold uc_balanced in H.
-  unfold uc_connected_spec. rewrite H by reflexivity. lia.
+  destruct (uc_run_ok l uc_init uc_init_ok) as [H _].
+  unfold uc_connected_spec. rewrite H. lia.
 Qed.
 
-(* the rendered gauge never goes down, whatever happens *)
-Lemma uc_code_monotone_step u o : (uc_connected_code u <= uc_connected_code (uc_step u o))%N.
+(* the rendered gauge never exceeds the number of connected routers ... *)
+Theorem uc_code_le_spec l : (uc_connected_code (uc_run uc_init l) <= uc_connected_spec (uc_run uc_init l))%N.
 Proof.
-  unfold uc_connected_code. destruct o as [k|k m|k| | | | |]; cbn [uc_step]; try lia.
-  - destruct (bool_decide (k ∈ uc_live u)); cbn [uc_known]; lia.
-  - destruct m; try lia. destruct (bool_decide (k ∈ uc_live u)); cbn [uc_known]; [|lia].
-    assert (Hle : (size (uc_known u) <= size ({[k]} ∪ uc_known u))%nat) by (apply subseteq_size; set_solver).
-    lia.
-  - destruct (bool_decide (k ∈ uc_live u)); cbn [uc_known]; lia.
+  destruct (uc_run_ok l uc_init uc_init_ok) as [_ H].
+  unfold uc_connected_code, uc_connected_spec.
+  assert (Hle : (size (uc_known (uc_run uc_init l)) <= size (uc_live (uc_run uc_init l)))%nat) by (apply subseteq_size, H).
+  lia.
 Qed.
 
-Theorem uc_code_monotone l : forall u, (uc_connected_code u <= uc_connected_code (uc_run u l))%N.
-Proof.
-  induction l as [|o l IH]; intros u; [cbn; lia|]. cbn [uc_run fold_left].
-  etransitivity; [apply uc_code_monotone_step|apply IH].
-Qed.
-
-(* ... so it is wrong as soon as one initiated router has gone: known finding C15-4 *)
-Theorem uc_connected_refuted :
-  let u := uc_run uc_init [WConnect 0; WMsg 0 MInit; WDisconnect 0] in
-  uc_connected_code u = 1%N /\ uc_connected_spec u = 0%N.
-Proof. vm_compute. split; reflexivity. Qed.
-
-(* the rendered value is right exactly as long as the known routers are the connected ones *)
+(* ... is right when every connected router has spoken ... *)
 Lemma uc_code_right_iff u : uc_known u = uc_live u -> uc_connected_code u = uc_connected_spec u.
 Proof. unfold uc_connected_code, uc_connected_spec. intros ->. reflexivity. Qed.
 
-(* code and property agree on the series of a router unless a lost session left peers behind *)
-Lemma mx_code_spec_iff c m : mx_code c m = mx_spec c m <-> (m_up c = 0 /\ m_eorcap c = 0)%N.
-Proof.
-  unfold mx_code, mx_spec. split.
-  - intros H. injection H as H1 H2. split; lia.
-  - intros [H1 H2]. rewrite H1, H2. reflexivity.
-Qed.
+(* ... and misses a router that is connected and has not sent anything yet: known finding C15-4 *)
+Theorem uc_connected_refuted :
+  let u := uc_run uc_init [WConnect 0] in
+  uc_connected_code u = 0%N /\ uc_connected_spec u = 1%N.
+Proof. vm_compute. split; reflexivity. Qed.
